@@ -3,6 +3,6 @@ CONSTANT Configs <- StopTimeoutQuick
 SPECIFICATION MCSpec
 VIEW MCView
 CONSTRAINT ExecBound
-INVARIANTS TypeOK C03_BoundInv
+INVARIANTS TypeOK C03_BoundInv C03_NoGhost
 
 CHECK_DEADLOCK FALSE
